@@ -28,34 +28,35 @@ type Move struct {
 
 // Scenario is plain data: everything an execution depends on (apart from runtime-owned choices).
 type Scenario struct {
-	Prop      string  `json:"prop"`
-	Stage     string  `json:"stage"`
-	Mode      string  `json:"mode,omitempty"` // pure lift try | liftf tryf
-	StdErr    bool    `json:"stderr,omitempty"`
-	Caps      []int   `json:"caps"`
-	In        [][]int `json:"in"`
-	N         int     `json:"n,omitempty"` // take: n ; join: unused
-	F         int     `json:"f,omitempty"`
-	A         int     `json:"a,omitempty"`
-	B         int     `json:"b,omitempty"`
-	Fail      []int   `json:"fail,omitempty"`    // values (map/fmap/unfold) or indices (emit) on which the user function fails
-	ErrKind   int     `json:"errkind,omitempty"` // 0 plain, 1 wraps context.Canceled, 2 wraps io.EOF, 3 wraps context.DeadlineExceeded, 4 slice-typed (non-comparable) error
-	CtxErr    bool    `json:"ctxerr,omitempty"`  // arrows return ctx.Err() (true) or nil (false) when they see the cancel
-	Ops       int     `json:"ops,omitempty"`     // throttle
-	Interval  int     `json:"interval,omitempty"`
-	Freq      int     `json:"freq,omitempty"` // emit: frequency in time units
-	Seed      int     `json:"seed,omitempty"` // unfold
-	Unit      int     `json:"unit,omitempty"` // nanoseconds per time unit (tick, interval, freq)
-	Script    []Move  `json:"script"`
-	NoFinish  bool    `json:"nofinish,omitempty"`  // C06: after the script nobody receives any more: cancel + close inputs only
-	Prefill   int     `json:"prefill,omitempty"`   // elements already sitting in the (buffered) input 0 when the stage is created
-	PreCancel bool    `json:"precancel,omitempty"` // the context is already cancelled when the stage is created
-	Repeat    int     `json:"repeat,omitempty"`    // execute the scenario this many times (samples scheduler-owned overlaps)
-	Twin      bool    `json:"twin,omitempty"`      // a second, independent instance of the same stage runs alongside on its own input and context
-	Par       int     `json:"par,omitempty"`       // fork stages: number of workers
-	Gated     bool    `json:"gated,omitempty"`     // fork stages: user calls block on gates opened by release moves
-	Monoid    int     `json:"monoid,omitempty"`    // fork.Fold: commutative monoid family member
-	T         Timing  `json:"t,omitzero"`          // C11/C13/C08 only
+	Prop        string  `json:"prop"`
+	Stage       string  `json:"stage"`
+	Mode        string  `json:"mode,omitempty"` // pure lift try | liftf tryf
+	StdErr      bool    `json:"stderr,omitempty"`
+	Caps        []int   `json:"caps"`
+	In          [][]int `json:"in"`
+	N           int     `json:"n,omitempty"` // take: n ; join: unused
+	F           int     `json:"f,omitempty"`
+	A           int     `json:"a,omitempty"`
+	B           int     `json:"b,omitempty"`
+	Fail        []int   `json:"fail,omitempty"`    // values (map/fmap/unfold) or indices (emit) on which the user function fails
+	ErrKind     int     `json:"errkind,omitempty"` // 0 plain, 1 wraps context.Canceled, 2 wraps io.EOF, 3 wraps context.DeadlineExceeded, 4 slice-typed (non-comparable) error
+	CtxErr      bool    `json:"ctxerr,omitempty"`  // arrows return ctx.Err() (true) or nil (false) when they see the cancel
+	Ops         int     `json:"ops,omitempty"`     // throttle
+	Interval    int     `json:"interval,omitempty"`
+	Freq        int     `json:"freq,omitempty"` // emit: frequency in time units
+	Seed        int     `json:"seed,omitempty"` // unfold
+	Unit        int     `json:"unit,omitempty"` // nanoseconds per time unit (tick, interval, freq)
+	Script      []Move  `json:"script"`
+	NoFinish    bool    `json:"nofinish,omitempty"`    // C06: after the script nobody receives any more: cancel + close inputs only
+	Prefill     int     `json:"prefill,omitempty"`     // elements already sitting in the (buffered) input 0 when the stage is created
+	PreCancel   bool    `json:"precancel,omitempty"`   // the context is already cancelled when the stage is created
+	Repeat      int     `json:"repeat,omitempty"`      // execute the scenario this many times (samples scheduler-owned overlaps)
+	CancelAtEnd bool    `json:"cancelAtEnd,omitempty"` // free-running tier: the producer starts a goroutine that cancels, sends the last element and closes the input, without yielding in between
+	Twin        bool    `json:"twin,omitempty"`        // a second, independent instance of the same stage runs alongside on its own input and context
+	Par         int     `json:"par,omitempty"`         // fork stages: number of workers
+	Gated       bool    `json:"gated,omitempty"`       // fork stages: user calls block on gates opened by release moves
+	Monoid      int     `json:"monoid,omitempty"`      // fork.Fold: commutative monoid family member
+	T           Timing  `json:"t,omitzero"`            // C11/C13/C08 only
 }
 
 func (sc *Scenario) unit() time.Duration {
@@ -112,7 +113,8 @@ type env struct {
 	errs         map[int]*stageErr
 	slow         func(int) time.Duration // virtual time a user-function call takes (C11)
 	gated        bool
-	pendingCalls []*gcall // user calls blocked on their gate, in arrival order
+	pendingCalls []*gcall      // user calls blocked on their gate, in arrival order
+	barrier      chan struct{} // closed by releaseAll: every pending call returns on one wake-up
 	maxInflight  int
 	reordered    bool  // some release move opened a gate other than the oldest
 	sentLog      []int // values the harness arrows managed to send (FMap)
@@ -387,6 +389,8 @@ func (e *env) do(m Move) string {
 		for k := 0; k < n; k++ {
 			e.release(0)
 		}
+	case "barrier":
+		e.releaseAll() // one wake-up for all pending calls
 	case "tick":
 		time.Sleep(time.Duration(max(m.M, 1)) * e.sc.unit())
 	case "batch":
@@ -538,11 +542,31 @@ func (e *env) gate(x int) {
 	if len(e.pendingCalls) > e.maxInflight {
 		e.maxInflight = len(e.pendingCalls)
 	}
+	if e.barrier == nil {
+		e.barrier = make(chan struct{})
+	}
+	barrier := e.barrier
 	e.mu.Unlock()
 	select {
 	case <-c.gate:
+	case <-barrier:
 	case <-e.envStop:
 	}
+}
+
+// releaseAll lets every pending call return at the same instant: one close wakes all of them (the per-call gates are
+// closed one after the other, microseconds apart).
+func (e *env) releaseAll() {
+	e.mu.Lock()
+	defer e.mu.Unlock()
+	if len(e.pendingCalls) > 1 {
+		e.reordered = true
+	}
+	if e.barrier != nil {
+		close(e.barrier)
+		e.barrier = nil
+	}
+	e.pendingCalls = nil
 }
 
 func (e *env) release(j int) {
